@@ -336,8 +336,11 @@ func decodeByteArray(s *Stream, val reflect.Value) error {
 		if vlen > 1 {
 			return &decodeError{msg: "input string too short", typ: val.Type()}
 		}
-		bv, _ := s.Uint()
-		val.Index(0).SetUint(bv)
+		// A single byte below 0x80 is its own encoding, 0x00 included. Take it
+		// from the type tag: s.Uint() rejects 0x00 as a non-canonical integer
+		// without advancing to the next value.
+		val.Index(0).SetUint(uint64(s.byteval))
+		s.kind = -1 // rearm Kind
 	case String:
 		if uint64(vlen) < size {
 			return &decodeError{msg: "input string too long", typ: val.Type()}
